@@ -557,6 +557,147 @@ pub fn canonical(evs: &[Ev]) -> Vec<Ev> {
     out
 }
 
+// ------------------------------------------------------------------ conformance of this reader with expat
+
+const CONF_TOKENS: &[&[u8]] = &[
+    b"<a>", b"</a>", b"<b ", b"<a", b"x=\"", b"y='", b"x=\"1\"", b"\"", b"'", b"/>", b">", b"<!--", b"-->", b"--", b"<![CDATA[", b"]]>", b"<?p", b"?>", b"&amp;", b"&#65;", b"&#x0;",
+    b"&q;", b"&", b"<", b"t", b" ", "\u{e9}".as_bytes(), b"\xFF", b"<?xml version=\"1.0\"?>", b"\n", b"\t",
+];
+
+fn conf_events(evs: &[Ev]) -> serde_json::Value {
+    use serde_json::json;
+    let mut out: Vec<serde_json::Value> = Vec::new();
+    let mut push_text = |out: &mut Vec<serde_json::Value>, t: &str| {
+        if t.is_empty() {
+            return;
+        }
+        if let Some(last) = out.last_mut() {
+            if last[0] == "T" {
+                let joined = format!("{}{}", last[1].as_str().unwrap_or(""), t);
+                last[1] = json!(joined);
+                return;
+            }
+        }
+        out.push(json!(["T", t]));
+    };
+    let mut depth = 0usize;
+    for ev in evs {
+        match ev {
+            Ev::Decl(_) | Ev::Doctype(_) => {}
+            Ev::Pi(t, d) => out.push(json!(["P", t, d])),
+            Ev::Comment(c) => out.push(json!(["C", c])),
+            Ev::Start(n, a) => {
+                depth += 1;
+                let mut a = a.clone();
+                a.sort();
+                let attrs: Vec<serde_json::Value> = a.iter().map(|(k, v)| json!([k, v])).collect();
+                out.push(json!(["S", n, attrs]));
+            }
+            Ev::End(n) => {
+                depth -= 1;
+                out.push(json!(["E", n]));
+            }
+            // expat does not report white space outside the root element
+            Ev::Text(t) | Ev::CData(t) => {
+                if depth > 0 {
+                    push_text(&mut out, t)
+                }
+            }
+        }
+    }
+    serde_json::Value::Array(out)
+}
+
+/// Exhaustive conformance of this reader with expat (python3 stdlib) over every string of <= k tokens
+/// from a 31-token XML alphabet: same verdict, and on acceptance the same event stream.
+/// Returns (documents compared, accepted by both) or a description of the first disagreement.
+pub fn expat_conformance(k: usize) -> Result<(u64, u64), String> {
+    use std::io::{BufRead, Write};
+    let n = CONF_TOKENS.len();
+    let mut docs: Vec<Vec<u8>> = Vec::new();
+    let mut idx: Vec<usize> = Vec::new();
+    fn rec(idx: &mut Vec<usize>, k: usize, n: usize, docs: &mut Vec<Vec<u8>>) {
+        let mut d = Vec::new();
+        for i in idx.iter() {
+            d.extend_from_slice(CONF_TOKENS[*i]);
+        }
+        docs.push(d);
+        if idx.len() == k {
+            return;
+        }
+        for t in 0..n {
+            idx.push(t);
+            rec(idx, k, n, docs);
+            idx.pop();
+        }
+    }
+    rec(&mut idx, k, n, &mut docs);
+    let nproc = 12usize;
+    let chunk = docs.len().div_ceil(nproc);
+    let results: Vec<Result<(u64, u64), String>> = std::thread::scope(|sc| {
+        let hs: Vec<_> = docs
+            .chunks(chunk)
+            .map(|part| {
+                sc.spawn(move || -> Result<(u64, u64), String> {
+                    let mut child = std::process::Command::new("python3")
+                        .arg("/verif/scripts/expat_check.py")
+                        .stdin(std::process::Stdio::piped())
+                        .stdout(std::process::Stdio::piped())
+                        .spawn()
+                        .map_err(|e| format!("cannot start python3: {e}"))?;
+                    let mut si = child.stdin.take().unwrap();
+                    let so = child.stdout.take().unwrap();
+                    let (mut total, mut acc) = (0u64, 0u64);
+                    let r = std::thread::scope(|s2| {
+                        s2.spawn(move || {
+                            let mut buf = String::new();
+                            for d in part {
+                                buf.clear();
+                                for b in d {
+                                    buf.push_str(&format!("{b:02x}"));
+                                }
+                                buf.push('\n');
+                                if si.write_all(buf.as_bytes()).is_err() {
+                                    break;
+                                }
+                            }
+                        });
+                        let mut lines = std::io::BufReader::new(so).lines();
+                        for d in part {
+                            let Some(Ok(line)) = lines.next() else { return Err("expat helper ended early".to_string()) };
+                            let mine = parse(d, Mode::Document);
+                            total += 1;
+                            match (&mine, line.as_str()) {
+                                (Err(_), "0") => {}
+                                (Ok(evs), l) if l.starts_with("1\t") => {
+                                    acc += 1;
+                                    let theirs: serde_json::Value = serde_json::from_str(&l[2..]).map_err(|e| e.to_string())?;
+                                    let ours = conf_events(evs);
+                                    if ours != theirs {
+                                        return Err(format!("event streams differ for {:?}: xmlref {} expat {}", String::from_utf8_lossy(d), ours, theirs));
+                                    }
+                                }
+                                (m, l) => return Err(format!("verdicts differ for {:?}: xmlref {} expat {}", String::from_utf8_lossy(d), if m.is_ok() { "accepts" } else { "rejects" }, if l == "0" { "rejects" } else { "accepts" })),
+                            }
+                        }
+                        Ok(())
+                    });
+                    let _ = child.wait();
+                    r.map(|_| (total, acc))
+                })
+            })
+            .collect();
+        hs.into_iter().map(|h| h.join().unwrap_or(Err("conformance thread panicked".into()))).collect()
+    });
+    let mut t = (0, 0);
+    for r in results {
+        let (a, b) = r?;
+        t.0 += a;
+        t.1 += b;
+    }
+    Ok(t)
+}
+
 #[cfg(test)]
 mod tests {
     use super::*;
